@@ -338,6 +338,21 @@ def check_case(ctx, cell, case):
                       "constraint modified its input tensor", CHK)
         except Exception:
             pass
+        if x.ndim >= 2:
+            # the same values as a dense but NON-CONTIGUOUS tensor (a permuted view of a buffer stored in reversed axis order): same result
+            import torch as _t
+            perm = tuple(reversed(range(x.ndim)))
+            xnc = to_t(np.ascontiguousarray(x.transpose(perm))).permute(*perm)
+            try:
+                ref = build(case)(to_t(x))
+                got = build(case)(xnc)
+            except Exception:
+                got = None
+            if got is not None:
+                ctx.ev()
+                ctx.check(got.shape == ref.shape and bool(_t.allclose(got, ref, rtol=1e-5, atol=1e-7 * float(ref.abs().max()))), "C08.k_noncontiguous_input",
+                          {"constraint": case["constraint"], "dtype": "complex" if case["complex"] else "real", "layout": "permuted_view"}, case, None, None,
+                          "a non-contiguous view of the same values is constrained differently from the contiguous tensor", CHK)
     c = case.get("constraint") or ("composite" if "parts" in case else "factory_" + case["factory"])
     cell = cell or {"constraint": c, "dtype": "complex" if case["complex"] else "real", "layout": f"{len(case['shape'])}d" + ("_b1" if case["shape"][0] == 1 and len(case["shape"]) > 1 else ""), "family": case["family"]}
     if "parts" in case:
@@ -360,7 +375,7 @@ def check_case(ctx, cell, case):
 SHAPES = st.one_of(st.tuples(st.integers(2, 64)), st.tuples(st.just(1), st.integers(2, 64)), st.tuples(st.integers(2, 6), st.integers(2, 64)),
                    st.tuples(st.integers(2, 4), st.integers(1, 3), st.integers(2, 32)), st.tuples(st.integers(2, 3), st.integers(1, 3), st.integers(2, 6), st.integers(2, 6)))
 ANT_SHAPES = st.one_of(st.tuples(st.integers(1, 4), st.integers(1, 4), st.integers(2, 32)), st.tuples(st.integers(1, 3), st.integers(1, 4), st.integers(2, 6), st.integers(2, 6)))
-TARGET = st.sampled_from([1e-4, 1e-3, 1e-2, 0.1, 0.5, 1.0, 4.0, 30.0, 1e3])
+TARGET = st.sampled_from([1e-4, 1e-3, 1e-2, 0.1, 0.5, 1.0, 4.0, 30.0, 1e3, 1e4, 1e6])
 SCALE = st.sampled_from([1e-2, 0.1, 1.0, 7.0, 1e2, 1e4])
 
 
